@@ -23,11 +23,42 @@ pub const SPEC: PropSpec = PropSpec {
 	secs: (30, 600),
 	required: &["ok_roundtrips", "typed_fixture_roundtrips"],
 	run_case,
-	once: None,
+	once: Some(once),
 	panics_are_violations: true,
 	cpu_kill_secs: 60,
 	max_workers: 16,
 };
+
+/// fixed probes for shapes the random generator deliberately leaves out
+fn once(ctx: &mut Ctx) {
+	use crate::refavro::schema::*;
+	// a union with two duration branches: valid Avro (two differently named fixed types), but
+	// serde_avro_fast names both branches `Duration`
+	let rs = RSchema {
+		nodes: vec![
+			Node { kind: Kind::Union(vec![1, 2]), logical: None },
+			Node { kind: Kind::Fixed { name: "DurA".into(), size: 12 }, logical: Some(Logical::Duration) },
+			Node { kind: Kind::Fixed { name: "DurB".into(), size: 12 }, logical: Some(Logical::Duration) },
+		],
+	};
+	let mut rng = Rng::new(1);
+	if let (Ok(schema), _) = make_schema(&rs, SchemaVia::Builder, &mut rng) {
+		let v = Val::Union(1, Box::new(Val::Duration(1, 2, 3)));
+		let pres = Pres::canonical();
+		let ok = match ser_datum(&schema, &rs, &v, &pres) {
+			Ok(b) => decode_datum(&rs, &b).map(|(x, _)| x).ok().as_ref() == Some(&v),
+			Err(_) => false,
+		};
+		ctx.count("probe:two-duration-branches");
+		if !ok {
+			ctx.violation(
+				"probe union-with-two-duration-branches: second branch cannot be selected",
+				u64::MAX,
+				json!({"schema": rs.spell(None).compact(), "value": v.to_json(), "presentation": "newtype variant named Duration around a {months, days, milliseconds} struct"}),
+			);
+		}
+	}
+}
 
 pub fn run_case(ctx: &mut Ctx, case_seed: u64) {
 	let mut rng = Rng::new(case_seed);
